@@ -17,19 +17,19 @@ from pymtl3.stdlib.stream.SinkRTL import SinkRTL
 from pymtl3.stdlib.test_utils import TestSinkCL, TestSrcCL
 
 _TYPES = {}
-def msg_types(dbits):
-  """(req class, resp class) of mk_mem_msg(8, 32, dbits)"""
-  if dbits not in _TYPES: _TYPES[dbits] = mk_mem_msg(8, 32, dbits)
-  return _TYPES[dbits]
+def msg_types(dbits, abits=32):
+  """(req class, resp class) of mk_mem_msg(8, abits, dbits)"""
+  if (dbits, abits) not in _TYPES: _TYPES[dbits, abits] = mk_mem_msg(8, abits, dbits)
+  return _TYPES[dbits, abits]
 
 def port_widths(c):
   """data width in bits of every port: c['widths'] (the ports of one memory may carry different message types), else
   c['dbits'] on every port"""
   return list(c['widths']) if c.get('widths') else [c['dbits']] * c['nports']
 
-def mk_req(dbits, r):
+def mk_req(dbits, r, abits=32):
   """r = [type, opaque, addr, len, data]"""
-  Req, _ = msg_types(dbits)
+  Req, _ = msg_types(dbits, abits)
   return Req(r[0], r[1], r[2], r[3], r[4])
 
 def resp_tuple(m):
@@ -203,7 +203,8 @@ def run_system(kind, cfg, image, dump, max_cycles=3000):
   Returns a Run (cycle numbers are `sim_cycle_count()` values; the four evaluations inside sim_reset are cycles 0..3)."""
   n = cfg['nports']
   widths = port_widths(cfg)
-  types = [msg_types(w) for w in widths]
+  abits = cfg.get('abits') or 32      # address width of the message types (every port)
+  types = [msg_types(w, abits) for w in widths]
   R = Run()
   R.deliv = [[] for _ in range(n)]
   holder = {}
@@ -213,7 +214,7 @@ def run_system(kind, cfg, image, dump, max_cycles=3000):
       R.deliv[i].append([clock(), resp_tuple(msg)])
       return True
     return f
-  msgs = [[mk_req(widths[i], r) for r in cfg['reqs'][i]] for i in range(n)]
+  msgs = [[mk_req(widths[i], r, abits) for r in cfg['reqs'][i]] for i in range(n)]
   H = C18HarnessCL if kind == 'cl' else C18HarnessRTL
   th = H(n, types, msgs, [len(m) for m in msgs], cfg['stall_prob'], cfg['latency'],
          cfg['src_init'], cfg['src_intv'], cfg['sink_init'], cfg['sink_intv'], [mk_cmp(i) for i in range(n)], cfg.get('mem_nbytes', 1 << 16))
@@ -285,13 +286,13 @@ def run_system(kind, cfg, image, dump, max_cycles=3000):
   R.image = get_image(th.mem, th.mem.mem, dump)
   return R
 
-def run_fl(dbits, image, dump, reqs, mem_nbytes=1 << 16):
+def run_fl(dbits, image, dump, reqs, mem_nbytes=1 << 16, abits=32):
   """direct calls on a MagicMemoryFL; returns (responses as the memories would build them, image)"""
   fl = MagicMemoryFL(mem_nbytes)
   fl.elaborate()
   put_image(fl, fl, image)
   nb = dbits >> 3
-  AT = mk_bits(32); DT = mk_bits(dbits)
+  AT = mk_bits(abits); DT = mk_bits(dbits)      # addresses are Bits of the message's address width, as up_mem passes them
   out = []
   for (t, o, a, l, d) in reqs:
     k = l if l else nb
@@ -311,7 +312,8 @@ def run_alias(cfg, image, dump, max_cycles=3000):
   the memory saw them), the responses and the final image; the requests as SENT are cfg['reqs']."""
   n = cfg['nports']
   widths = port_widths(cfg)
-  types = [msg_types(w) for w in widths]
+  abits = cfg.get('abits') or 32      # address width of the message types (every port)
+  types = [msg_types(w, abits) for w in widths]
   R = Run()
   R.deliv = [[] for _ in range(n)]
   holder = {}
